@@ -194,17 +194,17 @@ func TestC15(t *testing.T) {
 	rep.Rule("Go race detector (GORACE halt_on_error=0, reports kept when a frame of github.com/bluenviron/gomavlib/v3 is on a stack, de-duplicated by outermost library entry points) over: an API mix " +
 		"(3-4 custom channels + a TCP server with peers coming and going, heartbeats at 5 ms, stream requests triggered from >= 3 channels at once, eight goroutines issuing all six Write* flavours with " +
 		"their own v1/v2 frame objects and one shared message value, the consumer forwarding and fixing received frames, a channel closing and re-opening, Close racing with everything) and the workloads " +
-		"of C10, C11, C12 (random-instant closes), C13 and C16 re-run under the detector; several shards with different GOMAXPROCS. distinct = interleaving signatures of the API-mix runs")
+		"of C10, C11, C12 (random-instant closes over all eleven endpoint kinds), C13, C14 (client / serial reconnect sequences, servers with many peers) and C16 re-run under the detector; several shards with different GOMAXPROCS. distinct = interleaving signatures of the API-mix runs")
 	rep.Assume("each goroutine uses its own frame objects (the API mutates the frame it is given); absence of reports on the schedules run is not absence of races")
 	seed := shardSeed()
 	shard, _ := shardInfo()
 	aux := vh.NewReport("C15-aux") // findings of the re-used workloads belong to their own properties
 	prev := gomavlib.VerifSetReconnectPeriod(60 * time.Millisecond)
 	defer gomavlib.VerifSetReconnectPeriod(prev)
-	n := vh.Pick(8, 240)
+	n := vh.Pick(9, 240)
 	for i := 0; i < n; i++ {
 		c15apiMix(rep, seed, i)
-		switch (i + shard) % 5 {
+		switch (i + shard) % 6 {
 		case 0:
 			c10custom(aux, seed, 7000+i)
 			c10net(aux, seed, 7000+i)
@@ -224,6 +224,11 @@ func TestC15(t *testing.T) {
 			c16streamRequests(aux, seed, 7000+i)
 			_, _ = c16heartbeats(aux, seed, 7000+i, 20*time.Millisecond)
 			rep.Count("workload_c16", 2)
+		case 5:
+			c14tcpClient(aux, seed, 7000+i)
+			c14serial(aux, seed, 7000+i)
+			c14servers(aux, seed, 7000+i)
+			rep.Count("workload_c14", 3)
 		}
 		rep.Eval(1)
 	}
